@@ -120,6 +120,8 @@ func scenC20(r *Run) {
 		errText = circuitbreaker.ErrBreaker.Error()
 	}
 	r.Param("downstream_error", errText)
+	cancelledCallers := r.Plan(5) == 0
+	r.Param("cancelled_callers", cancelledCallers)
 	mkClient := func() (*core.Client, *circuitbreaker.CircuitBreaker) {
 		opts := []circuitbreaker.Option{circuitbreaker.WithThreshold(uint64(threshold)), circuitbreaker.WithRecoverTime(rec)}
 		if withMock {
@@ -160,7 +162,14 @@ func scenC20(r *Run) {
 				err = fmt.Errorf("panic escaped: %v", p)
 			}
 		}()
-		return client.InvokeContext(context.WithValue(context.Background(), c20key{}, c), "f", nil)
+		ctx := context.WithValue(context.Background(), c20key{}, c)
+		if cancelledCallers {
+			// the caller has given up already: a rejection is still the breaker's answer (break error or mock service)
+			var cancel context.CancelFunc
+			ctx, cancel = context.WithCancel(ctx)
+			cancel()
+		}
+		return client.InvokeContext(ctx, "f", nil)
 	}
 	// checkReject verifies what a rejected call must look like
 	rejectedOK := func(res []interface{}, err error) bool {
